@@ -51,7 +51,7 @@ class Machine(_Base):
 
     def machine(self, col, tier):
         return tracker.make_machine(col, self, tier, CHECKS, kinds=('message', 'delete', 'bind', 'server_event', 'sync', 'newer', 'retype', 'enum', 'midsession',
-                                                                   'server_retype', 'repeat', 'clock_back'))
+                                                                   'server_retype', 'repeat', 'clock_back', 'long_line'))
 
 
 class DeepReuse(_Base):
@@ -173,7 +173,7 @@ class FreshProcess(_Base):
         return 36 if tier == 'quick' else 14 * 150
 
     def gen(self, d, tier):
-        prof = dict(reuse=0.95, server_reuse=0.8, weights=dict(deep=30, message=30, delete=16, bind=8, server_event=12, sync=4))
+        prof = dict(reuse=0.95, server_reuse=0.8, weights=dict(deep=30, message=30, delete=16, bind=8, server_event=12, sync=4, long_line=3))
         specs = histgen.history(d, nconn=d.int(1, 2), nmsg=d.int(12, 45), profile=prof)
         if d.chance(0.35) and len(specs) > 3:
             # the clock steps back in the middle of the log (32-bit wrap, stepped realtime clock): still one log, the same connections
